@@ -69,7 +69,11 @@ def hdf5group2dict(
             if isinstance(value, np.ndarray) and len(value) == 1:
                 value = value[0]
             if isinstance(value, bytes):
-                value = value.decode("latin-1")
+                # orix writes UTF-8, other writers may use any 8-bit encoding
+                try:
+                    value = value.decode("utf-8")
+                except UnicodeDecodeError:
+                    value = value.decode("latin-1")
             dictionary[key] = value
     return dictionary
 
